@@ -15,6 +15,8 @@ type State struct {
 	heap   map[int]Val
 	Events []Event
 	Trace  []string // branch decisions (witness)
+	nilF   map[Val]bool   // identity-keyed facts about unknown pointers/interfaces/funcs/slices: true = nil
+	boolF  map[*BoolV]bool // identity-keyed facts about opaque unknown booleans
 }
 
 type Event struct {
@@ -35,6 +37,18 @@ func (st *State) Clone() *State {
 	n.facts = append([]*Term(nil), st.facts...)
 	for k, v := range st.heap {
 		n.heap[k] = cloneVal(v)
+	}
+	if len(st.nilF) > 0 {
+		n.nilF = make(map[Val]bool, len(st.nilF))
+		for k, v := range st.nilF {
+			n.nilF[k] = v
+		}
+	}
+	if len(st.boolF) > 0 {
+		n.boolF = make(map[*BoolV]bool, len(st.boolF))
+		for k, v := range st.boolF {
+			n.boolF[k] = v
+		}
 	}
 	n.Events = append([]Event(nil), st.Events...)
 	n.Trace = append([]string(nil), st.Trace...)
